@@ -646,17 +646,11 @@ fn finding_for_tags(tags: &[String], why: &str) -> Option<&'static str> {
         if has("interp") {
             return Some("F4");
         }
-        if has("numeq") {
-            return Some("F1");
-        }
         // a wrongly folded `..` decides a comparison, hence a branch, hence what is declared pure
         if has("numfmt") {
             return Some("F3");
         }
         return None;
-    }
-    if has("numeq") {
-        return Some("F1");
     }
     if has("numfmt") {
         return Some("F3");
